@@ -11,6 +11,22 @@ sys.path.insert(0, HERE)
 def main():
     rec = json.load(open(sys.argv[1]))
     ob = rec["obligation"]
+    if rec.get("kind") == "side-check" or ob.endswith("/native-side-check"):
+        import tempfile
+        parts = {"C33": ["MPSConfig.__init__", "check_permutable_observables", "create_impl"],
+                 "C04": ["create_impl", "SVBackend", "_extract_omega_delta_phi[bases="]}.get(rec.get("property", "C33"), [])
+        for part in parts:
+            fd, tmp = tempfile.mkstemp(suffix=".json")
+            os.close(fd)
+            json.dump(dict(rec, obligation=f"{rec.get('property')}/{part}/side-check", kind="side-part"), open(tmp, "w"))
+            p = subprocess.run([sys.executable, os.path.abspath(__file__), tmp] + sys.argv[2:], capture_output=True, text=True)
+            os.remove(tmp)
+            out = "\n".join(l for l in p.stdout.splitlines() if "conda" not in l.lower())
+            print(out)
+            if p.returncode == 1 and "REPRODUCED" in out and "NOT-REPRODUCED" not in out.splitlines()[-1]:
+                return 1
+        print("NOT-REPRODUCED: " + ", ".join(parts) + ": safeguards and refusals hold on the sampled configurations")
+        return 0
     import torch
     from native_util import patch_pulser_observable, make_sequence_data
     patched = patch_pulser_observable()
@@ -39,6 +55,27 @@ def main():
                 bad.append((kw, f"accepted autosave_dt={c.autosave_dt}"))
             except AssertionError:
                 pass
+        # float corners: whatever is ACCEPTED must satisfy the floor (NaN compares false with everything)
+        import math
+        import numpy as np
+        for v in (float("nan"), np.nan, np.float32("nan"), 10.0, math.nextafter(10.0, math.inf), -math.inf, -0.0,
+                  math.inf, 1e308, 10.000001):
+            try:
+                c = MPSConfig(observables=[], log_level=50, autosave_dt=v)
+            except Exception:
+                continue
+            if not (c.autosave_dt > 10):
+                bad.append((dict(autosave_dt=repr(v)), f"accepted, but the stored autosave_dt = {c.autosave_dt!r} is not > 10"))
+        # (a NaN tolerance is a meaningless request and is left out: nothing can be said about its floor)
+        for kw in (dict(precision=1e-300, extra_krylov_tolerance=1e-300), dict(precision=1e-200, extra_krylov_tolerance=1e-200),
+                   dict(precision=1e-13, extra_krylov_tolerance=1.0)):
+            try:
+                c = MPSConfig(observables=[], log_level=50, **kw)
+            except Exception:
+                continue
+            eff = c.precision * c.extra_krylov_tolerance
+            if not (eff >= 1e-12 * (1 - 1e-9)):
+                bad.append((kw, f"accepted, effective Krylov tolerance {eff!r} is not >= 1e-12"))
         if bad:
             print(f"REPRODUCED: constructed configuration violates a safeguard: {bad}")
             return 1
